@@ -170,6 +170,7 @@ func specWRBytes(r *WireReader, s0, s1 int, p, q int, b []byte) bool {
 //@   loop 1 decreases len(r.wire) - r.seg
 
 //@ func (*WireReader).ReadBuf
+//@   option binder-range
 //@   option relative-index
 //@   requires wfWR(r)
 //@   modifies r.seg, r.pos
